@@ -297,10 +297,11 @@ Theorem C11_link_rejected_on_crc_mismatch :
 Proof. exact link_rejected_on_crc_mismatch. Qed.
 Print Assumptions C11_link_rejected_on_crc_mismatch.
 
-(* legacy framing: size <= 12, magic other than "ZLIB", or declared size <> inflated size *)
+(* legacy framing: size <= 12, magic other than "ZLIB", or declared size <> inflated size:
+   ELFCompressionError (an exception, not an assert statement: commit 30d0c52) *)
 Theorem C11_zdebug_bad_framing_rejected :
   forall (inflate : list Z -> Z -> option (list Z * bool)) d,
-  zdebug_bad inflate d -> decompress_dwarf_section inflate d = Err (EPy "AssertionError").
+  zdebug_bad inflate d -> decompress_dwarf_section inflate d = Err ECompress.
 Proof. exact zdebug_bad_framing_rejected. Qed.
 Print Assumptions C11_zdebug_bad_framing_rejected.
 
